@@ -41,6 +41,7 @@ IMPORTS = {
             ("c01", ["R01.5"], "the sort key must not overflow for any nesting depth"),
             ("c14", None, "an undersized or misused tracker shifts out of range / indexes out of bounds"),
             ("c07", ["R07.3", "R07.5"], "the builders index the token list unchecked: they may only run past the token check"),
+            ("c07", ["R07.6"], "the tokenizer slices the text at its read position: a step that is not the byte length of a matched prefix can land inside a character or past the end"),
             ("c13", ["R13.7"], "the tokenizer slices the text at the offset the boundary helper returns")],
     "C07": [("c13", None, "what the tokenizer accepts as a token decides what is malformed"),
             ("c06", ["R06.1", "R06.2", "R06.3"], "a panic or a hang is not an error report")],
